@@ -130,7 +130,7 @@ class SpatialTransform(DeviceProperty, Module, metaclass=ABCMeta):
 
     def grid_(self: TSpatialTransform, grid: Grid) -> TSpatialTransform:
         r"""Set sampling grid which defines domain and codomain of this transformation."""
-        if self._grid == grid:
+        if self._grid == grid and self._grid.align_corners() == grid.align_corners():
             return self
         if grid.ndim != self.ndim:
             raise ValueError(f"{type(self).__name__}.grid_() must be {self.ndim}-dimensional")
